@@ -25,8 +25,30 @@ func main() {
 	defer r.Close()
 	// d hostMAC routerMAC lan bits frame spare  ->  projection of Parse + accessors
 	r.Register("d", func(a []string) string { return pgen.Run(a).C02 })
+	// table KIND -> the classification table extracted from layer_frame.go (tables.go); "unrecognised" is never
+	// recorded as a case: the check then rests on the generated frames only and says so in a stat.
+	r.Register("table", func(a []string) string {
+		tabs, _ := sourceTables()
+		if txt, ok := tabs[a[0]]; ok {
+			return txt
+		}
+		return "unrecognised"
+	})
 	if r.Replayed() {
 		return
+	}
+	{
+		tabs, unrec := sourceTables()
+		for _, k := range []string{"payloadid", "ethertype", "ipproto", "udpports"} {
+			if _, ok := tabs[k]; ok {
+				r.Do("table", k)
+				r.Stat("table."+k+".compared", 1)
+			}
+		}
+		for _, k := range unrec {
+			r.Stat("table."+k+".unrecognised", 1)
+			r.Sample("source table " + k + ": AST shape of layer_frame.go not recognised; classification checked through generated frames only")
+		}
 	}
 	pgen.Corpus(r)
 	rng := r.Rand()
